@@ -63,6 +63,59 @@ func natLit(e ast.Expr) uint64 {
 
 func line(n ast.Node) int { return fset.Position(n.Pos()).Line }
 
+// matchesShape inspects (*When).Matches in when.go: the body of its range loop must consist of the two argument/result
+// normalisations, optionally `w.Return(results...)`, then `matcher := newDefaultMatch(args, results, w.isMethod, w.funcTyp)`
+// and `w.matches = append(w.matches, matcher)`.
+func matchesShape(repo string) (bool, int) {
+	f, err := parser.ParseFile(fset, filepath.Join(repo, "when.go"), nil, 0)
+	if err != nil {
+		fmt.Fprintln(os.Stderr, "when.go: untranslatable:", err)
+		os.Exit(1)
+	}
+	var fn *ast.FuncDecl
+	for _, d := range f.Decls {
+		if fd, ok := d.(*ast.FuncDecl); ok && fd.Name.Name == "Matches" && fd.Recv != nil && len(fd.Recv.List) == 1 &&
+			src(fd.Recv.List[0].Type) == "*When" {
+			fn = fd
+		}
+	}
+	if fn == nil {
+		fmt.Fprintln(os.Stderr, "when.go:1: untranslatable: (*When).Matches not found")
+		os.Exit(1)
+	}
+	w := fn.Recv.List[0].Names[0].Name
+	var loop *ast.RangeStmt
+	for _, st := range fn.Body.List {
+		if r, ok := st.(*ast.RangeStmt); ok {
+			if loop != nil {
+				fail(st, "Matches has more than one loop")
+			}
+			loop = r
+		}
+	}
+	if loop == nil {
+		fail(fn, "Matches has no range loop")
+	}
+	var rest []string
+	for _, st := range loop.Body.List {
+		rest = append(rest, src(st))
+	}
+	n := len(rest)
+	if n != 6 && n != 7 {
+		fail(loop, "loop body of Matches has %d statements, the model assumes 6 or 7", n)
+	}
+	want(loop.Body.List[n-2], rest[n-2], "matcher := newDefaultMatch(args, results, "+w+".isMethod, "+w+".funcTyp)")
+	want(loop.Body.List[n-1], rest[n-1], w+".matches = append("+w+".matches, matcher)")
+	if !strings.HasPrefix(rest[0], "args, ok := ") || !strings.HasPrefix(rest[2], "results, ok := ") {
+		fail(loop, "unexpected normalisation statements in Matches")
+	}
+	if n == 7 {
+		want(loop.Body.List[4], rest[4], w+".Return(results...)")
+		return true, line(loop.Body.List[4])
+	}
+	return false, line(loop)
+}
+
 func main() {
 	repo := flag.String("repo", "/repo", "goom source tree")
 	out := flag.String("out", "", "output file (default stdout)")
@@ -184,6 +237,8 @@ func main() {
 	}
 	want(r4, src(r4.Results[0]), c+".results["+v+"]")
 
+	leak, leakLine := matchesShape(*repo)
+
 	var o strings.Builder
 	fmt.Fprintf(&o, "-- GENERATED by harness/c05/extract (go/ast) from matcher.go — do not edit.\n")
 	fmt.Fprintf(&o, "-- Source shape recognised: (*BaseMatcher).Result, 5 statements (single-result path, atomic load, clamp, atomic add, indexed return).\n")
@@ -196,6 +251,8 @@ func main() {
 	fmt.Fprintf(&o, "def lastIdx (n : Nat) : Nat := n - %d\n\n", k2)
 	fmt.Fprintf(&o, "/-- matcher.go:%d `%s` — cursor after the add -/\n", line(e3), src(e3.X))
 	fmt.Fprintf(&o, "def advance (cur : Nat) : Nat := cur + %d\n\n", k3)
+	fmt.Fprintf(&o, "/-- when.go:%d `(*When).Matches`: does the loop body call `w.Return(results...)` before it creates the pair's own matcher? -/\n", leakLine)
+	fmt.Fprintf(&o, "def matchesReturnsFirst : Bool := %v\n\n", leak)
 	fmt.Fprintf(&o, "end Gen.Cursor\n")
 	if *out == "" {
 		fmt.Print(o.String())
